@@ -314,10 +314,28 @@ an<ConfigItem> ConvertFromYaml(const YAML::Node& node,
   return nullptr;
 }
 
+// yaml-cpp reads a literal block scalar back unchanged only if the text ends in
+// exactly one line feed, starts with neither a line feed nor a space (the
+// indentation of the block is detected from its first non-empty line) and has
+// no control character other than line feed and tab (CR is a line break, NUL
+// the scanner's escape character, 0x04 its end-of-input mark).
+static bool IsSafeForLiteralStyle(const string& str) {
+  const size_t n = str.size();
+  if (n == 0 || str[0] == '\n' || str[0] == ' ' || str[n - 1] != '\n' ||
+      (n > 1 && str[n - 2] == '\n'))
+    return false;
+  return std::all_of(str.cbegin(), str.cend(), [](unsigned char ch) {
+    return ch >= 0x20 || ch == '\n' || ch == '\t';
+  });
+}
+
 void EmitScalar(const string& str_value, YAML::Emitter* emitter) {
   if (str_value.find_first_of("\r\n") != string::npos) {
-    *emitter << YAML::Literal;
-  } else if (!std::all_of(str_value.cbegin(), str_value.cend(), [](auto ch) {
+    // double-quoted style round-trips any text
+    *emitter << (IsSafeForLiteralStyle(str_value) ? YAML::Literal
+                                                  : YAML::DoubleQuoted);
+  } else if (str_value == "..." ||  // a document end marker when plain
+             !std::all_of(str_value.cbegin(), str_value.cend(), [](auto ch) {
                return std::isalnum(ch) || ch == '_' || ch == '.';
              })) {
     *emitter << YAML::DoubleQuoted;
